@@ -239,6 +239,11 @@ def run(ctx):
                             order = list(L.V1_NAMES); order[i], order[i + 1] = order[i + 1], order[i]
                             texts.append((v1_text(vals, order=order, sep=sep, gap=gap), "refuse",
                                           {"kind": "v1", "what": "transpose", "field": name, "sep": sep}))
+                    # the optional COMPRESSION line moved to the very end (recorded finding v1-compression-last-accepted:
+                    # the unanchored pattern reads the eight mandatory lines and the line lands in front of the body)
+                    order = [n for n in L.V1_NAMES if n != "COMPRESSION"] + ["COMPRESSION"]
+                    texts.append((v1_text(vals, order=order, sep=sep, gap=gap), "refuse",
+                                  {"kind": "v1", "what": "move_last", "field": "COMPRESSION", "sep": sep}))
                     for bad in V1_VERSION_NOT_1XX:
                         vv = list(vals); vv[2] = bad
                         texts.append((v1_text(vv, sep=sep, gap=gap), "refuse",
